@@ -195,7 +195,9 @@ func getFloatToFormattedStringFunction() schema.CallableFunction {
 		schema.NewStringSchema(
 			nil,
 			nil,
-			regexp.MustCompile(`^-?(?:0[xX])?\d+(?:\.\d*)?(?:[pPeE][-+]\d{2,3})?$`)),
+			// The hexadecimal formats have hexadecimal digits, the exponent of the binary formats is not
+			// limited to two or three digits (0 is "0p-1074"), and NaN and the infinities are spelled out.
+			regexp.MustCompile(`^(?:-?(?:0[xX])?[0-9a-fA-F]+(?:\.[0-9a-fA-F]*)?(?:[pPeE][-+]\d+)?|NaN|[+-]Inf)$`)),
 		false,
 		schema.NewDisplayValue(
 			schema.PointerTo("floatToFormattedString"),
